@@ -7,6 +7,7 @@ model accepts are exactly the unambiguous ones; that matchit accepts/rejects the
 established by the differential run.  Dispatch is a total function: it cannot panic.
 -/
 import AnemoModel.Routing
+import AnemoModel.Props.C07
 namespace Anemo
 
 theorem isPrefixOf_iff (a b : Bytes) : a.isPrefixOf b = true ↔ a <+: b := List.isPrefixOf_iff_prefix
@@ -256,6 +257,25 @@ example : ((Table.route [] [0x2f, 0x61] 1).bind (fun t => t.addRpcService [0x47]
     some [⟨.exact [0x2f, 0x61], 1, [9]⟩, ⟨.catchAll [0x2f, 0x47, 0x2f], 2, [9]⟩, ⟨.exact [0x2f, 0x62], 3, []⟩] := by decide
 example : (Table.route [] [0x2f, 0x61, 0x2f, 0x2a, 0x72] 1).bind (fun t => t.route [0x2f, 0x61, 0x2f, 0x62] 2) = none := by decide
 
+
+
+/-- **The route the router dispatches on is the route the caller sent**: a request that crosses the wire
+(real encoder, any limit up to the 4-byte length field, any trailing bytes behind it on the stream) is
+decoded with exactly its route -- empty, slash-less, overlong or odd as it may be -- so the table
+lookup on the serving side is the lookup on the caller's route string. -/
+theorem C16_route_as_sent (t : Table) (max : Nat) (r : Req) (bytes rest : Bytes)
+    (hmax : max ≤ lenFieldMax) (hwf : ReqWF r) (henc : encodeRequest max r = .ok bytes) :
+    ∃ d, decodeRequest max (bytes ++ rest) = .ok (d, rest) ∧ d.route = r.route ∧ t.dispatch d.route = t.dispatch r.route := by
+  refine ⟨_, C07_roundtrip_request max r bytes rest hmax hwf henc, rfl, rfl⟩
+
+/-- in particular the empty route stays empty and is answered NotFound by every table of slash-led patterns -/
+theorem C16_empty_route_over_the_wire (t : Table) (hs : t.Slashed) (max : Nat) (r : Req) (bytes rest : Bytes)
+    (hmax : max ≤ lenFieldMax) (hwf : ReqWF r) (henc : encodeRequest max r = .ok bytes) (he : r.route = []) :
+    ∃ d, decodeRequest max (bytes ++ rest) = .ok (d, rest) ∧ t.dispatch d.route = none := by
+  obtain ⟨d, hd, hr, _⟩ := C16_route_as_sent t max r bytes rest hmax hwf henc
+  refine ⟨d, hd, ?_⟩
+  rw [hr, he]
+  exact C16_odd_routes_not_found t hs [] (by simp)
 
 /-- **The router the model describes is the one in the source** (shapes recognised on this run): `route`
 rejects paths without a leading slash and Routers as services, inserts the pattern into the matcher under a
